@@ -29,9 +29,32 @@ def exc_kind(ex):
     return type(ex).__name__
 
 
-def run(fn, show):
+class Hang(BaseException):
+    """raised inside a watched call that did not return in time (BaseException: not swallowed by `except Exception`)"""
+
+
+def watched(fn, seconds=5.0):
+    """run fn() under a per-call watchdog (SIGALRM interval timer; pure-Python loops are interruptible).
+    A call that does not return within `seconds` raises Hang in the caller — the property says the
+    result exists, so a hang is reported by the callers as a failing input, not as an infrastructure timeout."""
+    import signal
+
+    def on_alarm(signum, frame):
+        raise Hang()
+    old = signal.signal(signal.SIGALRM, on_alarm)
+    signal.setitimer(signal.ITIMER_REAL, seconds)
     try:
-        return "ok " + show(fn())
+        return fn()
+    finally:
+        signal.setitimer(signal.ITIMER_REAL, 0)
+        signal.signal(signal.SIGALRM, old)
+
+
+def run(fn, show, watchdog=None):
+    try:
+        return "ok " + show(watched(fn, watchdog) if watchdog else fn())
+    except Hang:
+        return "hang"
     except Exception as ex:            # the kind that escapes is part of the comparison
         return "err " + exc_kind(ex)
 
